@@ -953,7 +953,7 @@ func cleartextInMITM(x *explore.X) {
 
 func TestC01(t *testing.T) {
 	s := explore.NewSuite(t, "C01", "exploration",
-		"one client connection carrying 0-2 history requests (5 kinds) and one request under test = method(6) x target form(3-4) x path/query(7) x header shape(24) x body framing(3) x size(9) x chunking(4) x version(2) x write segmentation(9) x configuration(direct, upstream HTTP proxy, MITM'd CONNECT tunnel to a TLS origin) x configured --header rule set(7); all combinations with at most D deviations from the default request (D=3 quick, 4 thorough); plus the full product body framing(2) x size(9) x chunking(4) x segmentation(9) x history(11) x configuration(2 quick, 3 thorough) for POST are executed on the real HTTPProxy over the in-memory network and every request captured at the next hop is compared with expectForwarded; non-trivial = at least one forwarded request was compared; plus (two-uploads) two connections uploading at once, one next-hop connection not reading in the middle of a 70000-byte body while the other upload completes, framing x framing x size x {direct, upstream proxy}, both compared exactly; plus (concurrent-via, Engine T) the proxy's single Via modifier used by two requests at once, every interleaving of its statements within 2 (quick) / 3 (thorough) preemptions: each request leaves with its own Via chain plus one element; plus (cleartext-in-mitm) plain HTTP/1.x inside an intercepted CONNECT: body size(9) x framing x {CONNECT head and first request in one segment, separate} x {second request pipelined, not} [full product], bodies compared at the origin")
+		"one client connection carrying 0-2 history requests (5 kinds) and one request under test = method(6) x target form(3-4) x path/query(7) x header shape(24) x body framing(3) x size(9) x chunking(4) x version(2) x write segmentation(9) x configuration(direct, upstream HTTP proxy, MITM'd CONNECT tunnel to a TLS origin) x configured --header rule set(7); all combinations with at most D deviations from the default request (D=3 quick, 4 thorough); plus the full product body framing(2) x size(9) x chunking(4) x segmentation(9) x history(11) x configuration(2 quick, 3 thorough) for POST are executed on the real HTTPProxy over the in-memory network and every request captured at the next hop is compared with expectForwarded; non-trivial = at least one forwarded request was compared; plus (two-uploads) two connections uploading at once, one next-hop connection not reading in the middle of a 70000-byte body while the other upload completes, framing x framing x size x {direct, upstream proxy}, both compared exactly; plus (concurrent-via, Engine T) the proxy's single Via modifier used by two requests at once, every interleaving of its statements within 2 (quick) / 3 (thorough) preemptions: each request leaves with its own Via chain plus one element; plus (cleartext-in-mitm) plain HTTP/1.x inside an intercepted CONNECT: body size(9) x framing x {CONNECT head and first request in one segment, separate} x {second request pipelined, not} [full product], bodies compared at the origin x next hop selected by a PAC script instead of --proxy / nothing (round 9: the proxy-selection function is handed the live URL of the request)")
 	s.Assume = []string{"simnet models TCP (in-order, reliable, segment boundaries preserved per write)", "httpwire (independent strict parser) is trusted", "crypto/tls of the Go toolchain is used by the scripted TLS peers"}
 	bubble := func(f func(x *explore.X)) func(x *explore.X) {
 		return func(x *explore.X) { world.Run(t, x, func() { f(x) }) }
